@@ -62,14 +62,19 @@ CFG = dict(
     level_note="Trusted: Coq kernel; hand-written model tied by sampled correspondence (scan: exact panic bit on ~270 texts; "
                "has_template_conflicts: ~2.5k generated fix shapes x templated files incl. panics; loop: ~700 recorded fix-loop traces); "
                "templated_slice_to_source_slice, rule crawls and apply_fixes are recorded oracles. The crash search samples the "
-               "property's input classes (about 18k lint/fix runs quick, ~150k thorough); it is exhaustive only for single-token "
-               "deletions/duplications of the selected small files and for the dialects' keyword sets. Deep nesting in fix mode "
+               "property's input classes (about 73k lint/fix runs quick, ~220k thorough); it is exhaustive only for single-token "
+               "deletions/duplications of the selected small files, for the dialects' keyword sets as statement openers and for the "
+               "nodes of the dialect grammars (one shortest derivation context per node: a node is reached, not every path to it). Deep nesting in fix mode "
                "needs up to 11 GB: quick tier runs 64 nested subqueries in fix mode for ansi only.",
     rule="direct: one run = (dialect, rule selection in {core, all, 7 groups}, lint|fix, text) executed by Linter::lint_string (+ fix_string) "
          "in a child process under catch_unwind with a 60 s (x5 on retry) watchdog and a 16 GB address-space limit; classes: regression, corpus "
          "(own dialect, all+fix for every file), cross-dialect, rule fixtures, exhaustive single-token delete/duplicate on small files, "
          "seeded multi-token corruption with junk/keywords/config lines, every reserved+unreserved keyword of every dialect as statement "
-         "opener, '-- sqlfluff' lines at every line, junk stream, nesting 1..64 of 9 bracket/CASE/subquery shapes, files to 20 kB. "
+         "opener, '-- sqlfluff' lines at every line, junk stream, nesting 1..64 of 9 bracket/CASE/subquery shapes, files to 20 kB, "
+         "grammar-driven sentences: for every node of every dialect's grammar graph reachable from FileSegment (walked through the "
+         "cfg(sqruff_verif) accessors on the freshly built dialect) a shortest token sequence leading the parser to that node - complete, "
+         "cut right after the node, with a foreign identifier in its place, and complete with the optional elements in front of the node "
+         "present (~55k texts; every keyword/segment reference site of a grammar is a node of its own). "
          "correspondence: scan/htc/loop kernels as described in level_note; non-trivial = scan: text has a config line; htc: positioned "
          "anchor in a multi-slice file; loop: at least one fix batch",
     assumptions=["the main search runs a build whose usize arithmetic wraps (overflow-checks off, like release); a second build with overflow "
